@@ -29,6 +29,7 @@ type Config struct {
 	Customs     bool   // emit custom sections
 	SpecialHost bool   // import env.grow (i32)->i32 and env.callback (i32)->i32
 	HostModule  string // module name of the host imports ("" = "env")
+	Enter       bool   // weave a call to the host import enter(i32 funcIndex) into every function entry (ground truth for C20)
 	WASI        bool   // import a few wasi_snapshot_preview1 functions and use them
 }
 
@@ -81,6 +82,7 @@ type gen struct {
 	funcTable int // index of a funcref table or -1
 	fuelIdx   uint32
 	wasiFdWr  int
+	enterIdx  int // function index of the "enter" import or -1; never called by generated code
 }
 
 func (g *gen) has(f Feature) bool { return g.cfg.Features&f == f }
@@ -113,7 +115,7 @@ func (g *gen) chance(pct int, l string) bool { return g.intn(100, l) >= 100-pct 
 // Generate draws a module.
 func Generate(t *rapid.T, cfg Config) *Module {
 	g := &gen{t: t, cfg: cfg, m: &wasmenc.Module{}, out: &Module{MemMax: -1, Start: -1, Features: cfg.Features, Stats: map[string]int{}},
-		ops: map[byte][]*Op{}, passiveE: map[byte][]int{}, funcTable: -1, wasiFdWr: -1}
+		ops: map[byte][]*Op{}, passiveE: map[byte][]int{}, funcTable: -1, wasiFdWr: -1, enterIdx: -1}
 	for i := range OpTable {
 		op := &OpTable[i]
 		if cfg.Features&op.Feat != op.Feat {
@@ -194,6 +196,12 @@ func (g *gen) module() {
 			g.sigs = append(g.sigs, s)
 			g.out.Funcs = append(g.out.Funcs, FuncInfo{Index: idx, Sig: s, Imported: true, HostName: n})
 		}
+	}
+	if cfg.Enter {
+		s := Sig{P: []byte{I32}}
+		g.enterIdx = int(m.ImportFunc(hostMod, "enter", s.P, s.R))
+		g.sigs = append(g.sigs, s)
+		g.out.Funcs = append(g.out.Funcs, FuncInfo{Index: uint32(g.enterIdx), Sig: s, Imported: true, HostName: "enter"})
 	}
 	if cfg.WASI {
 		s := Sig{P: []byte{I32, I32, I32, I32}, R: []byte{I32}}
@@ -309,7 +317,7 @@ func (g *gen) module() {
 			off := g.rng(0, int(ti.Min)-n, "elemoff")
 			fs := make([]uint32, n)
 			for i := range fs {
-				fs[i] = uint32(g.intn(total, "elemfn"))
+				fs[i] = g.anyFn(total, "elemfn")
 			}
 			if g.funcTable == 0 {
 				m.Elems = append(m.Elems, wasmenc.ActiveElemFuncs(int32(off), fs))
@@ -325,7 +333,7 @@ func (g *gen) module() {
 			n := g.rng(0, 4, "pelemn")
 			fs := make([]uint32, n)
 			for i := range fs {
-				fs[i] = uint32(g.intn(total, "pelemfn"))
+				fs[i] = g.anyFn(total, "pelemfn")
 			}
 			m.Elems = append(m.Elems, wasmenc.PassiveElemFuncs(fs))
 			g.passiveE[FuncRef] = append(g.passiveE[FuncRef], g.nElem)
@@ -624,6 +632,10 @@ func (g *gen) function(idx uint32, s Sig) {
 	}
 	f.labels = []label{{types: s.R}}
 	g.burnFuelN(16)
+	if g.enterIdx >= 0 {
+		g.i32const(int32(idx))
+		g.call2(uint32(g.enterIdx))
+	}
 	term := g.stmts(g.cfg.MaxStmts)
 	if !term {
 		if g.has(FeatTailCall) && g.chance(6, "tail") && g.tailCall() {
@@ -664,7 +676,7 @@ func renderIns(ins []insRec) []string {
 func (g *gen) tailCall() bool {
 	var c []uint32
 	for i, s := range g.sigs {
-		if string(s.R) == string(g.f.sig.R) {
+		if string(s.R) == string(g.f.sig.R) && i != g.enterIdx {
 			c = append(c, uint32(i))
 		}
 	}
@@ -681,6 +693,20 @@ func (g *gen) tailCall() bool {
 }
 
 func (g *gen) stat(k string) { g.out.Stats[k]++ }
+
+// anyFn draws a function index that generated code may reference (never the enter hook).
+func (g *gen) anyFn(total int, l string) uint32 {
+	for {
+		fn := g.intn(total, l)
+		if fn != g.enterIdx {
+			return uint32(fn)
+		}
+		if total == 1 {
+			return 0
+		}
+		l += "'"
+	}
+}
 
 // stmts emits up to n statements; it returns true if the sequence ended in an
 // unconditional transfer of control (nothing may follow in this block).
@@ -772,7 +798,7 @@ func (g *gen) stmt() (terminated bool) {
 			g.op1("atomic.fence", 0xfe, 0x03, 0x00)
 		}
 	case "call":
-		fn := uint32(g.intn(len(g.sigs), "callfn"))
+		fn := g.anyFn(len(g.sigs), "callfn")
 		g.call(fn)
 		for range g.sigs[fn].R {
 			g.op1("drop", 0x1a)
@@ -1335,7 +1361,7 @@ func (g *gen) leaf(ty byte) {
 			g.f.emit("v128.const", wasmenc.NewB().V128Const(lo, hi).Bytes(), int64(lo), int64(hi))
 		case FuncRef:
 			if g.has(FeatBulk) && len(g.sigs) > 0 && g.chance(60, "reffunc") {
-				fn := uint32(g.intn(len(g.sigs), "reffn"))
+				fn := g.anyFn(len(g.sigs), "reffn")
 				g.f.emit("ref.func", wasmenc.NewB().RefFunc(fn).Bytes(), int64(fn))
 			} else {
 				g.op1("ref.null func", 0xd0, FuncRef)
